@@ -305,6 +305,9 @@ struct CompressedPGMIndex<K, Epsilon, EpsilonRecursive, Floating>::CompressedLev
     /// Largest position estimate converted to an integer (exactly representable, leaves room for adding an intercept).
     static constexpr Floating max_pos = Floating(std::numeric_limits<int64_t>::max() / 2 + 1);
 
+    /// Added to the ith stored intercept for each i (more than consecutive intercepts can decrease by).
+    static constexpr int64_t intercept_stride = 2 * int64_t(std::max(Epsilon, EpsilonRecursive)) + 4;
+
     CompressedLevel(const CompressedLevel &other)
         : keys(other.keys),
           slopes_map(other.slopes_map),
@@ -367,15 +370,18 @@ struct CompressedPGMIndex<K, Epsilon, EpsilonRecursive, Floating>::CompressedLev
             keys.emplace_back(last_key + 1);
         keys.emplace_back(sentinel);
 
-        // Compress and store intercepts
-        auto max_intercept = prev_level_size - intercept_offset + 2;
+        // Compress and store intercepts. Each intercept is within epsilon of a rank, so the intercepts of consecutive
+        // segments can decrease, by at most 2 * epsilon: the ith one is stored increased by i * intercept_stride, which makes
+        // the sequence strictly increasing without altering any of them.
         auto intercepts_count = std::distance(first_intercept, last_intercept) + need_extra_segment + 1;
+        auto max_intercept = prev_level_size - intercept_offset + 2 + intercept_stride * (intercepts_count - 1);
         sdsl::sd_vector_builder builder(max_intercept, intercepts_count);
         builder.set(0);
-        for (auto it = first_intercept + 1; it != last_intercept; ++it)
-            builder.set(std::clamp<int64_t>(*it, *(it - 1) + 1, prev_level_size - 1) - intercept_offset);
+        int64_t i = 1;
+        for (auto it = first_intercept + 1; it != last_intercept; ++it, ++i)
+            builder.set(std::min<int64_t>(*it, prev_level_size - 1) - intercept_offset + i * intercept_stride);
         if (need_extra_segment)
-            builder.set(max_intercept - 2);
+            builder.set(max_intercept - 2 - intercept_stride);
         builder.set(max_intercept - 1);
         compressed_intercepts = sdsl::sd_vector<>(builder);
         sdsl::util::init_support(sel1, &compressed_intercepts);
@@ -399,7 +405,7 @@ struct CompressedPGMIndex<K, Epsilon, EpsilonRecursive, Floating>::CompressedLev
     }
 
     inline int64_t get_intercept(size_t i) const {
-        return intercept_offset + int64_t(sel1(i + 1));
+        return intercept_offset + int64_t(sel1(i + 1)) - int64_t(i) * intercept_stride;
     }
 
     inline size_t size() const {
